@@ -15,5 +15,8 @@ AllShapes == {"chain", "siblings", "overlap", "twotals", "deep", "loop", "halves
 (* every pair of rejected publication points in the shape "halves", each unsafe-vrps policy *)
 UnsafeShapes  == {"halves", "families"}
 UnsafeConfigs == {[stale |-> "reject", unsafe |-> u, maxdepth |-> 32] : u \in {"reject", "warn", "accept"}}
+(* the chain of five CAs under every maximum depth around its length, 0 included (only the trust anchor itself counts) *)
+DeepOnly     == {"deep"}
+DepthConfigs == {[stale |-> "reject", unsafe |-> "accept", maxdepth |-> d] : d \in {0, 1, 2, 3, 4, 5, 32}}
 PointFaultsOnly(site, k) == site[1] = "mft" /\ k \in {"Missing", "Expired", "HashMismatch", "Stale"}
 =============================================================================
